@@ -493,7 +493,8 @@ def index_guard(check: Check, repo: Repo, mods: list[Module], rule: str = "INDEX
                     b_ = _parent(stores[0]) if len(stores) == 1 else None
                     binds = [b_]
                     if isinstance(b_, ast.Assign) and isinstance(b_.value, ast.Call) and sub.value.id not in params \
-                            and len(b_.targets) == 1 and b_.targets[0] is stores[0] and isinstance(b_.value.func, ast.Name):
+                            and len(b_.targets) == 1 and b_.targets[0] is stores[0] and isinstance(b_.value.func, ast.Name) \
+                            and not hasattr(__import__("builtins"), b_.value.func.id):  # list(x), sorted(x) ... build the list here: in scope
                         ok, why = True, f"`{sub.value.id}` names the result of {unparse(binds[0].value)[:40]}: same read as indexing the call directly (outside this rule)"
             if not ok:
                 key = next((k for k in INDEX_INVARIANTS if m.rel.endswith(k[0]) and qualname_of(sub) == k[1] and unparse(sub) == k[2]), None)
